@@ -223,7 +223,7 @@ reg(
   "Random full-grammar models (and hand-written flex/hfield/material models), optionally with batch_sizes, must reproduce every same-named MuJoCo field after float32 rounding; 28 unsupported features each "
   "switched on alone must raise; MjData states after random steps go through put_data(nworld 1-3) -> get_data_into per world and must come back exactly (contact order, efc rows in MuJoCo order, efc_address, island fields); "
   "after a step with per-world differences get_data_into(w) must equal world w's own arrays.",
-  "Skip list: opt/stat compared member-wise, Option.tolerance against the documented clamp; exact after float32 rounding except re-factored qLD/qLDiagInv (1e-5).",
+  "Skip list: opt/stat compared member-wise, Option.tolerance against the documented clamp; exact after float32 rounding except re-factored qLD/qLDiagInv (1e-3).",
 )
 
 reg(
